@@ -85,7 +85,10 @@ OpResult run_op(const OpSpec &op) {
   g_spy.calls.clear();
   g_spy.inners.clear();
   g_spy.active = true;
-  u8_t key[16];
+  // The key is handed over in one of two long-lived buffers, like a caller that keeps its key in one place and
+  // changes it there: state remembered by POINTER (rather than by value) across operations then shows.
+  static u8_t g_keybufs[2][16];
+  u8_t *key = g_keybufs[op.keyslot & 1];
   memcpy(key, op.key, 16);
   // the seed is a C string of any length (the CLI hands over 256 random bytes that need not be terminated)
   std::vector<u8_t> rbuf_v(op.seedstr.size() + 8, 0);
